@@ -714,6 +714,11 @@ package leader
 //@   on call time.After as a assert C03+C07.timeout_value: a.d == max(e.cfg.HeartbeatInterval / 2, 1000000000)
 //@   on call KeyValue.Update assert C03.attempt_time_boxed: inspawn()
 //@   on call KeyValue.Get assert C03.attempt_time_boxed: inspawn()
+//@   ghost spawned updErr Int = 0
+//@   ghost spawned updRev Int = 0
+//@   on ret KeyValue.Update as u set updErr = u.result1
+//@   on ret KeyValue.Update as u set updRev = u.result0
+//@   on recv local as r assert C03+C07.result_of_this_attempt: r.value.err == updErr && r.value.rev == updRev
 //@   on recv local as r set attErr = r.value.err
 //@   on recv local as r set failed = r.value.err != nil
 //@   on recv time.After set failed = true
